@@ -92,6 +92,9 @@ ASSUMPTIONS = [
     "resolvers given to multi-leader are deterministic and symmetric (LWW, VectorClockMerge with LWW fallback or a symmetric merge "
     "function, CustomResolver with a symmetric function); an asymmetric user function could legitimately diverge",
     "KVStore capacity is unlimited (FIFO eviction under reordering is not explored)",
+    "ReplicatedStore is built with the constructor's default read_timeout/write_timeout in half of the runs and with budgets swept "
+    "down to the order of the replica latencies in the other half; a put that returned True must be on every replica at quiescence "
+    "unless a later write superseded it, whatever the budgets (the class writes every replica today)",
     "ReplicatedStore deletes are treated as writes of 'absent' (class rs-delete); puts-only runs are class rs-put",
     "in the 'alphabet' share of the runs (class suffix /aba) every key has two values written in A-B-A patterns incl. re-writes of "
     "the held value; the ack/read oracles then attribute a value to its FIRST occurrence (weaker, never stricter), and the "
@@ -110,6 +113,7 @@ EXPECTED_PROBES = [
     "probe.craq_read_forwarded_after_recheck", "probe.craq_commit_left_key_dirty",
     "probe.ml_first_tick_found_leader_empty", "probe.ml_idle_ticks_between_bursts", "probe.ml_posthoc_rounds",
     "probe.aba_value_restored", "probe.aba_same_value_rewritten", "probe.aba_restore_overlapped_put",
+    "probe.rs_write_budget_below_replica_pass", "probe.rs_read_budget_below_replica_pass",
 ]
 SHRINK_SKIP = ("scheme", "klass", "mode", "resolver", "rcl", "wcl", "ae_style", "valmode")
 
@@ -330,6 +334,11 @@ def _gen_rs(rng, sc, n_writes, scale):
     sc["rcl"] = rng.choice(["ONE", "QUORUM", "ALL"])
     if klass == "rs-delete":
         sc["dlat"] = [round(rng.choice([0.0, scale * 0.05, scale * 0.3, scale, scale * 3]), 6) for _ in range(sc["n"])]
+    # operation time budgets: the constructor defaults (2 s / 1 s) in half of the runs, else swept down to the order of
+    # the replica latencies (below, around and above the cumulative latency of one pass over the replicas)
+    if rng.random() < 0.5:
+        sc["wto"] = round(max(1e-6, rng.choice([0.3, 0.7, 1.0, 1.5, 3.0]) * sum(sc["wlat"]) / sc["n"] * rng.choice([1, 1, sc["n"]])), 9)
+        sc["rto"] = round(max(1e-6, rng.choice([0.3, 0.7, 1.0, 1.5, 3.0]) * sum(sc["rlat"]) / sc["n"] * rng.choice([1, 1, sc["n"]])), 9)
     nkeys = rng.choice([1, 2, 3])
     step = (sum(sc["wlat"]) + scale * 0.1)
     t = 0.0
@@ -418,6 +427,8 @@ def _validate(sc):
             raise InvalidScenario("consistency level")
         if not sc.get("wlat") or not sc.get("rlat"):
             raise InvalidScenario("latencies")
+        if any((not isinstance(sc.get(f, 1.0), (int, float))) or sc.get(f, 1.0) <= 0 for f in ("wto", "rto")):
+            raise InvalidScenario("timeouts")
         if any((not isinstance(x, (int, float))) or x < 0 for x in list(sc["wlat"]) + list(sc["rlat"]) + list(sc.get("dlat") or [])):
             raise InvalidScenario("latencies")
     for f in sc.get("faults") or []:
@@ -859,6 +870,12 @@ def run(sc: dict) -> dict:
             c["probe.ml_posthoc_rounds"] = 1
     if scheme == "rs" and any(s.overlapped_puts for s in stores):
         c["probe.rs_concurrent_same_key"] = 1
+    if scheme == "rs" and "wto" in sc:
+        tot = sum(hz._lat(sc, "wlat", i, 0.005) for i in range(sc["n"]))
+        if sc["wto"] < tot:
+            c["probe.rs_write_budget_below_replica_pass"] = 1  # write_timeout smaller than one pass over all replicas
+        if sc.get("rto", 1.0) < sum(hz._lat(sc, "rlat", i, 0.001) for i in range(sc["n"])):
+            c["probe.rs_read_budget_below_replica_pass"] = 1
     for k in ("probe.ack_reflected_by_later_write",):
         if k in c:
             c[k] = 1
